@@ -311,3 +311,25 @@ package git
 //gvc:  opt frame args
 //gvc:  ensures fresh: result != nil && result.seen != result.missing && forall(k, !has(result.seen, k))
 //gvc:end
+
+// Property C29 for Worktree.Checkout: a checkout that returns an error has, as
+// its last reference operations, removed the branch it created (with Create)
+// and written back the HEAD reference it read on entry; if that write
+// succeeded, HEAD is the reference it was. Everything between (createBranch,
+// setHEADToBranch/Commit, Reset) may move references freely: the rollback is
+// what establishes the postcondition. Index and worktree files are not
+// covered (Reset refuses before touching them: read, not proved).
+//gvc:func (*Worktree).Checkout
+//gvc:  props C29
+//gvc:  theory int
+//gvc:  opt coarse
+//gvc:  opt frame args
+//gvc:  results err
+//gvc:  requires nn: w != nil && opts != nil && w.r != nil
+//gvc:  modifies w.r.Storer.#refs
+//gvc:  ensures rollback: err != nil && calls("Reference") >= 1 && now(headErr) == nil && calls("createBranch") + calls("setHEADToBranch") + calls("setHEADToCommit") + calls("Reset") >= 1 ==> calls("SetReference") >= 1 && lastarg("SetReference", 0) == now(head)
+//gvc:  ensures restored: err != nil && calls("Reference") >= 1 && now(headErr) == nil && calls("SetReference") >= 1 && lastres("SetReference") == nil ==> w.r.Storer.#refs[strid("HEAD")] == now(head)
+//gvc:  ensures uncreated: err != nil && calls("Reference") >= 1 && now(created) ==> calls("RemoveReference") >= 1
+//gvc:  sink RemoveReference requires own: strid(arg0) == strid(opts.Branch)
+//gvc:  sink SetReference requires saved: arg0 == head
+//gvc:end
